@@ -315,11 +315,27 @@ func c11MemberDerefSSA(r *Run, rule string, navID *FuncInfo) bool {
 					}
 					continue
 				}
+				// IsNil / IsValid of the owner (or of what it points to): the classes are a struct and a non-nil pointer to one
+				if recv, _, isNil := reflectValueCall(p.resolve(d.cond), "IsNil"); isNil {
+					if kk := lenKindOf(p, recv, owner, c); kk == kPtr && d.truth != c.isNil {
+						consistent = false
+					}
+					continue
+				}
+				if recv, _, isValid := reflectValueCall(p.resolve(d.cond), "IsValid"); isValid {
+					if kk := lenKindOf(p, recv, owner, c); kk >= 0 && d.truth != (kk != kInvalid) {
+						consistent = false
+					}
+					continue
+				}
 				bo, ok := d.cond.(*ssa.BinOp)
 				if !ok || (bo.Op != token.EQL && bo.Op != token.NEQ) {
 					continue
 				}
 				a, b := p.resolve(bo.X), p.resolve(bo.Y)
+				if _, isC := constKind(a); isC {
+					a, b = b, a // reflect.Ptr == rv.Kind()
+				}
 				if recv, _, isKind := reflectValueCall(a, "Kind"); isKind {
 					if k, isC := constKind(b); isC {
 						if kk := lenKindOf(p, recv, owner, c); kk >= 0 && ((kk == k) == (bo.Op == token.EQL)) != d.truth {
